@@ -336,6 +336,8 @@ def gen_history(ctx, n):
                  'items': rng.choice([[1, 2, 3], [0], [], [1, 0, 1, 1, 0, 1, 0, 0, 1]]), 'data': rbits(rng.choice([0, 7, 24, 61])),
                  'fmt': rng.choice(['hex', 'bin', 'uint8', 'float', 'bytes', 'ue', 'hex, bin', 'u6', 'nonsense', 'bin:3', 'i4', 'bool', 'float16']),
                  'closed': rng.random() < 0.25, 'width': rng.choice([60, 20, 0])}
+            if rng.random() < 0.3:
+                c['fmt'] = rng.choice(HOT_PP_FMTS)
         elif k == 'combine-mutate':
             c = {'kind': k, 'cls': rng.choice(['BitArray', 'BitStream']), 's': strs[rng.randrange(12)] if rng.random() < 0.6 else nxt('str', strs),
                  'how': rng.choice(['empty+str', 'str+empty', 'empty.append', 'empty.prepend', 'empty+=', 'join', 'empty|=', 'ctor', 'ctor', 'ctor-auto-kw'])}
@@ -378,6 +380,8 @@ def gen_history(ctx, n):
             if ':m' in f:
                 kw['m'] = rng.choice([2, 4, 2.0, 4])
             c = {'kind': k, 'fmt': f, 'data': rbits(rng.choice([40, 100, 160])), 'kw': kw}
+            if rng.random() < 0.12:
+                c['fmt'], c['kw'] = rng.choice(HOT_PP_FMTS), {}
             if rng.random() < 0.1:
                 c['fmt'] = [f, 'u3'] if rng.random() < 0.5 else f.split(', ')
         elif k == 'dtype':
@@ -530,6 +534,26 @@ def cache_report(ctx):
     ctx.extra['cache_stats'] = rep
 
 
+# formats that pp(), unpack(), readlist() and pack() all accept: printing with a format must not change what parsing it gives
+HOT_PP_FMTS = ['hex8, hex8', '2*uint:4', 'bin:16,bin:16', 'u8, u8', 'hex:8, hex:8', 'bin8, hex8', '2*hex4', 'uint:4, uint:4', 'bin4,bin4']
+_HOT_VALS = {'hex8, hex8': ['a1', 'b2'], '2*uint:4': [3, 4], 'bin:16,bin:16': ['0' * 16, '1' * 16], 'u8, u8': [1, 2], 'hex:8, hex:8': ['a1', 'b2'],
+             'bin8, hex8': ['00001111', 'b2'], '2*hex4': ['a', 'b'], 'uint:4, uint:4': [3, 4], 'bin4,bin4': ['0101', '1111']}
+
+
+def _pp_then_parse():
+    o = [False, False, 'saturate']
+    out = []
+    for f in HOT_PP_FMTS:
+        d = '1010000110110010110000111101010011100101'
+        out.append([{'kind': 'unpack', 'fmt': f, 'data': d, 'kw': {}, 'opts': o},
+                    {'kind': 'print', 'what': 'bits', 'tok': 'uint8', 'items': [], 'data': d, 'fmt': f, 'closed': False, 'width': 60, 'opts': o},
+                    {'kind': 'unpack', 'fmt': f, 'data': d, 'kw': {}, 'opts': o}, {'kind': 'readlist', 'fmt': f, 'data': d, 'kw': {}, 'opts': o},
+                    {'kind': 'pack', 'fmt': f, 'vals': _HOT_VALS[f], 'kw': {}, 'opts': o},
+                    {'kind': 'print', 'what': 'array', 'tok': 'uint8', 'items': [1, 2, 3], 'data': d, 'fmt': f, 'closed': False, 'width': 60, 'opts': o},
+                    {'kind': 'pack', 'fmt': f, 'vals': _HOT_VALS[f], 'kw': {}, 'opts': o}, {'kind': 'unpack', 'fmt': f, 'data': d, 'kw': {}, 'opts': o}])
+    return out
+
+
 def _kw_twins():
     """The same format with keyword lengths that are equal but not the same argument (8 and 8.0, 1 and True), in both orders."""
     o = [False, False, 'saturate']
@@ -545,7 +569,7 @@ def _kw_twins():
     return out
 
 
-DIRECTED = _kw_twins() + [
+DIRECTED = _kw_twins() + _pp_then_parse() + [
     # D(i): mxfp token parsed under saturate, served unchanged under overflow
     [{'kind': 'ctor', 'cls': 'Bits', 's': 'e4m3mxfp=1000', 'opts': [False, False, 'saturate']},
      {'kind': 'toggle', 'opts': [False, False, 'overflow']},
